@@ -280,24 +280,24 @@ def hll_cpc_bound_shapes(facts):
     for pat, fn in sorted(cf.items()):
         if fn["name"] in ("get_icon_confidence_lb", "get_icon_confidence_ub", "get_hip_confidence_lb", "get_hip_confidence_ub") and fn.get("rect") is None:
             upper = fn["name"].endswith("_ub")
-            d = {v["n"]: txt(v["init"]).replace(" ", "") for v in local_decls(fn).values() if v.get("init") is not None}
             key = "%s:formula" % fn["name"]
             probs = []
-            want_res = "(est/(1-eps))" if upper else "(est/(1+eps))"
-            if d.get("result") != want_res:
-                probs.append("result = %s, expected %s" % (d.get("result"), want_res))
-            if d.get("eps", "").replace("(double)", "") not in ("(kappa*rel)",):
-                probs.append("eps = %s, expected kappa * rel" % d.get("eps"))
-            tbl = ("LOW" if upper else "HIGH")
-            assigns = []
-            walk(fn["body"], lambda n: assigns.append(txt(n["r"])) if n.get("k") == "Assign" and txt(n["l"]) == "x" else None)
-            if not any(("%s_SIDE_DATA[((3*(lg_k-4))+(kappa-1))]" % tbl) in a.replace(" ", "") for a in assigns):
-                probs.append("x is not read from the %s-side table at 3*(lg_k-4)+(kappa-1) (%s)" % (tbl, assigns))
+            # the returned value with every intermediate local substituted in program order: names, hoisting and the spelling of
+            # the clamp do not matter, the formula does
+            import semantics
+            est = "sketch.get_icon_estimate()" if "icon" in fn["name"] else "sketch.get_hip_estimate()"
+            T = ("ICON" if "icon" in fn["name"] else "HIP")
+            x = "((14<sketch.get_lg_k())?%s_ERROR_CONSTANT:(%s_%s_SIDE_DATA[((3*(sketch.get_lg_k()-4))+(kappa-1))]/10000))" % (T, T, "LOW" if upper else "HIGH")
+            core = "(%s/(1%s(kappa*(%s/sqrt((1<<sketch.get_lg_k()))))))" % (est, "-" if upper else "+", x)
+            want = C("ceil(%s)" % core) if upper else C("max(%s,sketch.get_num_coupons())" % core)
+            got = semantics.symbolic_return(fn)
+            if got != want:
+                probs.append("the bound returned is `%s`, expected `%s`" % (got, want))
             guards = [txt(s["c"]).replace(" ", "") for s in stmts_of(fn["body"]) if s.get("k") == "If" and always_throws(s.get("t"))]
             if not any(g == C("((kappa<1)||(kappa>3))") for g in guards):
                 probs.append("kappa is not validated to 1..3 before indexing")
             if probs:
                 out.append(ob("bounds.shape", key, fn["pat"], "violated", "; ".join(probs), fn["qname"]))
             else:
-                out.append(ob("bounds.shape", key, fn["pat"], "discharged", "est / (1 %s kappa * x / sqrt(k)), x from the %s-side table, kappa validated" % ("-" if upper else "+", tbl), fn["qname"]))
+                out.append(ob("bounds.shape", key, fn["pat"], "discharged", "est / (1 %s kappa * x / sqrt(k)), x from the %s-side table, kappa validated" % ("-" if upper else "+", "LOW" if upper else "HIGH"), fn["qname"]))
     return out
